@@ -205,8 +205,9 @@ func InstallMetrics() { monitoring.SetMetricFactory(RecFactory{}) }
 // StrReader is an io.ReadCloser over a symbolic string (request / response bodies).
 // The engine's bufio / io contracts read field S directly.
 type StrReader struct {
-	S      string
-	Closed bool
+	S        string
+	Closed   bool
+	FailRead bool // reading fails with a transport error (set by the HTTP contract)
 }
 
 func (r *StrReader) Read(p []byte) (int, error) {
